@@ -8,7 +8,7 @@ import OpusProofs.SilkSymsTables
   `ec_dec_icdf` on a symbolic decoder state.
 -/
 namespace Opus.SilkSymsProofs
-open Opus Opus.RangeCoder Opus.SilkSyms Opus.Gen.SilkIcdf
+open Opus Opus.RangeCoder Opus.SilkSyms Opus.SilkSymsFrozen.Icdf
 
 /-! ### The LSB-count loop -/
 
